@@ -245,21 +245,26 @@ class simplify_chained_calls(FuncADLNodeTransformer):
 
     def __init__(self):
         self._arg_stack = argument_stack()
-        self._reserved_names = False
+        self._visit_depth = 0
         self._called_attributes: Dict[int, ast.Attribute] = {}
 
     def visit(self, node: ast.AST):
         # Names of the form `arg_N` already present in the query (e.g. it was simplified
         # before, in another process) must not be handed out again by `arg_name`.
-        if not self._reserved_names:
-            self._reserved_names = True
+        # This is done for every query handed to `visit` from outside (the transformer can be
+        # used for more than one), not for the nodes visited while working on it.
+        if self._visit_depth == 0:
             global argument_var_counter
             for n in ast.walk(node):
                 name = n.id if isinstance(n, ast.Name) else n.arg if isinstance(n, ast.arg) else ""
                 if name.startswith("arg_") and name[4:].isdigit():
                     argument_var_counter = max(argument_var_counter, int(name[4:]) + 1)
             node = make_binders_unique(node)
-        return super().visit(node)
+        self._visit_depth += 1
+        try:
+            return super().visit(node)
+        finally:
+            self._visit_depth -= 1
 
     def visit_Select_of_Select(self, parent: ast.Call, selection: ast.Lambda):
         r"""
